@@ -32,13 +32,19 @@ type socketOpts struct {
 }
 
 func parseDialAddr(urlHost, dialAddr string, defaultPort uint16) (string, uint16, error) {
-	addr := urlHost
-	if len(dialAddr) > 0 {
-		addr = dialAddr
-	}
-	host, port, err := trySplitHostPort(addr)
+	host, port, err := trySplitHostPort(urlHost)
 	if err != nil {
 		return "", 0, err
+	}
+	if len(dialAddr) > 0 {
+		dialHost, dialPort, err := trySplitHostPort(dialAddr)
+		if err != nil {
+			return "", 0, err
+		}
+		host = dialHost
+		if dialPort != 0 { // A dial addr without port keeps the port of the url.
+			port = dialPort
+		}
 	}
 	if port == 0 {
 		port = defaultPort
